@@ -27,7 +27,7 @@ func ServiceRequest(pdu []byte, ue *tglib.RanUeContext, conn *sctp.SCTPConn, gnb
 
 	ueSupi := strings.Split(ue.Supi, "-")[1]
 	supiInt, _ := strconv.Atoi(ueSupi)
-	pduId := int64(supiInt % 1e4)
+	pduId := int64((supiInt%1e4+14)%15 + 1) // same identity as in EstablishPDU/ReleasePDU
 
 	/*
 		  pduSessionIDList := []int64{pduId}
